@@ -152,7 +152,7 @@ def wfDetail (sp : Spec) (exempt : List Int) : String :=
     ("tables.wf", sp.t.wf),
     ("dfa.size", decide (sp.t.dfa.size = numStates sp.t * sp.t.numSymbols.toNat)),
     ("scanBytes", decide (sp.t.scanBytes = sp.opts.scanBytes)),
-    ("invalidAct", decide (0 ≤ invalidAct sp) && (tokenOf sp (invalidAct sp)).isSome),
+    ("invalidAct", decide (0 ≤ invalidAct sp) && (tokenOf sp (invalidAct sp)).any (· != 0)),
     ("classMapInRange", classMapInRange sp.cm sp.t.numSymbols),
     ("finalActions", sp.t.dfa.all (fun e => decide (e > actionStart sp.t) || e == actionStart sp.t - invalidAct sp ||
       actOk sp exempt (actionStart sp.t - e))),
